@@ -35,6 +35,36 @@ CONFIGS = {
 }
 
 
+
+def thorough_spec(quick, focus):
+    """Thorough tier = everything of the quick tier, plus every configuration with the small alphabet at depth 4, the
+    standard alphabet at depth 4 on two configurations, the focus alphabets one level deeper, deep auto-repay histories
+    and long lassos. Sized for roughly 10-15 minutes on 16 cores."""
+    items = list(quick)
+    have = set(items)
+
+    def add(item):
+        if item not in have:
+            have.add(item)
+            items.append(item)
+    for k in CONFIGS:
+        if CONFIGS[k].get("pairs", 1) == 1:
+            add((k, "small", 4))
+    add(("K0", "std", 4))
+    add(("K1", "std", 4))
+    add(("K5", "std", 3))
+    add(("K7", "small", 3))
+    add(("K16", "cross", 5))
+    for k, level in focus:
+        add((k, level, 5))
+    for k in ("K1", "K10", "K13"):
+        add((k, "ar", 8))
+    add(("lasso", "K0", "liq", 2, 120))
+    add(("lasso", "K5", "pairs2", 2, 120))
+    add(("lasso", "K1", "lend", 2, 20))
+    return items
+
+
 def plan(prop, tier, spec):
     """spec[tier]: list of (config name, alphabet level, depth) BFS items and ("lasso", config, level, max cycle length,
     repetitions) items; spec["conf_"+tier]: (config, depth) conformance items. Returns sharded scenarios."""
